@@ -21,6 +21,7 @@ def rtext(rng, n=None, semi=0.0):
 
 
 TIPSYMS = [["i", n] for n in range(1, 9)] + [["t", n] for n in range(1, 9)]
+LIQS = ["", "Water", "Water_FD_AspZmax-1", "DMSO free"]
 
 
 def chunks(seq, n):
@@ -107,6 +108,20 @@ class ParamsSuite(ProgBaseSuite):
             for f in ("src_rack_id", "src_rack_type", "dst_rack_id", "dst_rack_type"):
                 if rng.random() < 0.25:
                     op[f] = rtext(rng, semi=0.15)
+            ops.append(op)
+        # ---- mostly valid R records: exclusion lists across digit boundaries, multi_disp reduction
+        for _ in range(n // 4):
+            ds = rng.choice([1, 3, 7, 8, 9, 95])
+            de = ds + rng.choice([2, 5, 9, 30])
+            k = rng.choice([0, 1, 2, 3, 6])
+            ex = rng.sample(range(ds, de + 1), min(k, de - ds + 1))
+            if rng.random() < 0.3:
+                ex = ex + ex[:1]
+            v = rng.choice(["10", "25/2", "50", "200", "475", {"int": 30}, {"int": 400}, "1/64", "0"])
+            op = {"op": "reagent", "src_label": rng.choice(["T", "water", "µ-trough"]), "src_start": rng.choice([1, 5, 9]), "src_end": rng.choice([8, 12, 16]),
+                  "dst_label": rng.choice(["P", "MTP 1"]), "dst_start": ds, "dst_end": de, "volume": v, "exclude": ex if rng.random() < 0.9 else None,
+                  "multi_disp": rng.choice([1, 2, 6, 12, 100]), "diti_reuse": rng.choice([1, 3]), "liquid_class": rng.choice(LIQS),
+                  "direction": rng.choice(["left_to_right", "right_to_left"])}
             ops.append(op)
         # ---- simple emitters
         for _ in range(n // 2):
